@@ -81,14 +81,21 @@ func (g *Gen) opNew(dt string, shape []int) Op {
 type pred func(t *tensor.Dense) bool
 
 func (g *Gen) pick(p pred) int {
-	var c []int
+	var c, sh []int
 	for i, t := range g.w.slots {
 		if t != nil && (p == nil || p(t)) {
 			c = append(c, i)
+			if i < g.w.nshared {
+				sh = append(sh, i)
+			}
 		}
 	}
 	if len(c) == 0 {
 		return -1
+	}
+	// concurrency programs: operands are shared tensors half of the time, whatever the population
+	if g.c18 && len(sh) > 0 && g.r.Intn(2) == 0 {
+		return sh[g.r.Intn(len(sh))]
 	}
 	return c[g.r.Intn(len(c))]
 }
@@ -172,6 +179,52 @@ func and(ps ...pred) pred {
 		}
 		return true
 	}
+}
+
+// smallInts: a float/complex tensor whose elements are all integers of magnitude <= 64 (any
+// integer-typed tensor qualifies). Sums of products over such operands are exact in float32, so
+// the result of an accumulating kernel (BLAS, reductions) does not depend on the order in which its
+// vectorised loops add things up - an order that depends on the alignment of the allocation.
+func smallInts(t *tensor.Dense) bool {
+	if t.Dtype().Type == nil {
+		return false
+	}
+	ok := func(f float64) bool { return f == float64(int64(f)) && f >= -64 && f <= 64 }
+	switch d := t.Data().(type) {
+	case []float64:
+		for _, x := range d {
+			if !ok(x) {
+				return false
+			}
+		}
+	case []float32:
+		for _, x := range d {
+			if !ok(float64(x)) {
+				return false
+			}
+		}
+	case []complex128:
+		for _, x := range d {
+			if !ok(real(x)) || !ok(imag(x)) {
+				return false
+			}
+		}
+	case []complex64:
+		for _, x := range d {
+			if !ok(float64(real(x))) || !ok(float64(imag(x))) {
+				return false
+			}
+		}
+	case float64:
+		return ok(d)
+	case float32:
+		return ok(float64(d))
+	case complex128:
+		return ok(real(d)) && ok(imag(d))
+	case complex64:
+		return ok(float64(real(d))) && ok(float64(imag(d)))
+	}
+	return true
 }
 
 func dimsIs(d int) pred { return func(t *tensor.Dense) bool { return t.Dims() == d } }
@@ -540,9 +593,12 @@ func (g *Gen) genFamily(fam string) (Op, bool) {
 		return op, true
 
 	case "reduce":
-		a := g.pick(and(isDt(numericDts...), func(t *tensor.Dense) bool { return t.Dims() > 0 }))
+		a := g.pick(and(isDt(numericDts...), smallInts, func(t *tensor.Dense) bool { return t.Dims() > 0 }))
 		if a < 0 {
-			a = g.pick(nil)
+			a = g.pick(smallInts)
+		}
+		if a < 0 {
+			return Op{}, false
 		}
 		t := w.get(a)
 		d := t.Dims()
@@ -812,9 +868,10 @@ func (g *Gen) genLifecycle(force bool) (Op, bool) {
 func (g *Gen) genProduct() (Op, bool) {
 	r := g.r
 	w := g.w
-	fl := isDt(floatCplxDts...)
+	pickB := func(p pred) int { return g.pick(and(p, smallInts)) }
+	fl := and(isDt(floatCplxDts...), smallInts)
 	if r.Intn(10) == 0 {
-		fl = isDt(numericDts...)
+		fl = and(isDt(numericDts...), smallInts)
 	}
 	withMode := func(op Op, outElems int) Op {
 		t := w.get(op.In[0])
@@ -825,7 +882,9 @@ func (g *Gen) genProduct() (Op, bool) {
 				op.Mode, op.R = "reuse", rr
 			}
 		case 2:
-			rr := g.pickWritable(func(x *tensor.Dense) bool { return x.Dtype() == t.Dtype() && x.Shape().TotalSize() == outElems })
+			rr := g.pickWritable(func(x *tensor.Dense) bool {
+				return x.Dtype() == t.Dtype() && x.Shape().TotalSize() == outElems && smallInts(x)
+			})
 			if rr >= 0 {
 				op.Mode, op.R = "incr", rr
 			}
@@ -840,7 +899,7 @@ func (g *Gen) genProduct() (Op, bool) {
 			return g.Next(), true
 		}
 		t := w.get(a)
-		b := g.pick(func(x *tensor.Dense) bool {
+		b := pickB(func(x *tensor.Dense) bool {
 			return x.Dtype() == t.Dtype() && x.Shape().TotalSize() == t.Shape().TotalSize() && x.Dims() <= 2
 		})
 		name := "Inner"
@@ -855,7 +914,7 @@ func (g *Gen) genProduct() (Op, bool) {
 			return g.Next(), true
 		}
 		t := w.get(a)
-		b := g.pick(func(x *tensor.Dense) bool {
+		b := pickB(func(x *tensor.Dense) bool {
 			return x.Dtype() == t.Dtype() && x.Shape().IsVector() && x.Shape().TotalSize() == t.Shape()[1]
 		})
 		if b < 0 {
@@ -870,7 +929,7 @@ func (g *Gen) genProduct() (Op, bool) {
 			return g.Next(), true
 		}
 		t := w.get(a)
-		b := g.pick(func(x *tensor.Dense) bool {
+		b := pickB(func(x *tensor.Dense) bool {
 			return x.Dtype() == t.Dtype() && x.Dims() == 2 && x.Shape()[0] == t.Shape()[1]
 		})
 		if b < 0 {
@@ -884,7 +943,7 @@ func (g *Gen) genProduct() (Op, bool) {
 			return Op{}, false
 		}
 		t := w.get(a)
-		b := g.pick(func(x *tensor.Dense) bool { return x.Dtype() == t.Dtype() && x.Dims() >= 1 && x.Dims() <= 2 })
+		b := pickB(func(x *tensor.Dense) bool { return x.Dtype() == t.Dtype() && x.Dims() >= 1 && x.Dims() <= 2 })
 		return withMode(Op{Name: "Outer", In: []int{a, b}, Out: g.newSlot()}, t.Shape().TotalSize()*w.get(b).Shape().TotalSize()), true
 	case 6, 7: // Dot
 		a := g.pick(fl)
@@ -892,7 +951,7 @@ func (g *Gen) genProduct() (Op, bool) {
 			return Op{}, false
 		}
 		t := w.get(a)
-		b := g.pick(func(x *tensor.Dense) bool {
+		b := pickB(func(x *tensor.Dense) bool {
 			if x.Dtype() != t.Dtype() {
 				return false
 			}
@@ -905,7 +964,7 @@ func (g *Gen) genProduct() (Op, bool) {
 			return x.Shape()[x.Dims()-2] == t.Shape()[t.Dims()-1]
 		})
 		if b < 0 || r.Intn(12) == 0 {
-			b = g.pick(func(x *tensor.Dense) bool { return x.Dtype() == t.Dtype() })
+			b = pickB(func(x *tensor.Dense) bool { return x.Dtype() == t.Dtype() })
 		}
 		return Op{Name: "Dot", In: []int{a, b}, Out: g.newSlot()}, true
 	case 8: // TensorMul / Contract
@@ -915,7 +974,7 @@ func (g *Gen) genProduct() (Op, bool) {
 		}
 		t := w.get(a)
 		ax := r.Intn(t.Dims())
-		b := g.pick(func(x *tensor.Dense) bool {
+		b := pickB(func(x *tensor.Dense) bool {
 			if x.Dtype() != t.Dtype() || x.Dims() < 1 {
 				return false
 			}
@@ -952,19 +1011,19 @@ func (g *Gen) genProduct() (Op, bool) {
 			}
 			return Op{Name: "Trace", In: []int{a}, Out: -1}, true
 		}
-		a := g.pick(isDt(floatDts...))
+		a := g.pick(and(isDt(floatDts...), smallInts))
 		if a < 0 {
 			return Op{}, false
 		}
 		t := w.get(a)
-		y := g.pickWritable(sameShapeDt(t))
+		y := g.pickWritable(and(sameShapeDt(t), smallInts))
 		if y < 0 {
 			return Op{}, false
 		}
 		if r.Intn(2) == 0 {
 			return Op{Name: "FMA", Form: "vs", In: []int{a, y}, F: float64(r.Intn(5)), Out: g.newSlot(), Mode: "fma"}, true
 		}
-		x := g.pick(sameShapeDt(t))
+		x := pickB(sameShapeDt(t))
 		return Op{Name: "FMA", In: []int{a, x, y}, Out: g.newSlot(), Mode: "fma"}, true
 	}
 }
